@@ -369,7 +369,7 @@ func envNewCase(s *cases.Set, label string, kek []byte, key lorawan.AES128Key, k
 func envUnwrapCase(s *cases.Set, data, kek []byte, kind string) {
 	o := unwrapOutcome(backend.KeyEnvelope{KEKLabel: "x", AESKey: data}, kek)
 	s.Add(cases.Case{Term: fmt.Sprintf("CEnvUnwrap %s %s %s", cq.Bytes(data), cq.Bytes(kek), o),
-		Key: fmt.Sprintf("env:unwrap:data=%x:kek=%x", data, kek), Kind: kind, Nontrivial: true,
+		Key: fmt.Sprintf("env:unwrap:len=%d:data=%x:kek=%x", len(data), data, kek), Kind: kind, Nontrivial: true,
 		Replay: map[string]interface{}{"api": "backend.KeyEnvelope.Unwrap", "aeskey": fmt.Sprintf("%x", data), "kek": fmt.Sprintf("%x", kek), "observed": o}})
 }
 
@@ -474,6 +474,42 @@ func envCases(s *cases.Set, r *cq.RNG, thorough bool) {
 		envUnwrapCase(s, append([]byte{0xa6, 0xa6, 0xa6, 0xa6, 0xa6, 0xa6, 0xa6, 0xa6}, r.Bytes(5)...), kek, "unwrap-short-data-"+aesName)
 		envUnwrapCase(s, r.Bytes(15), kek, "unwrap-short-data-"+aesName)
 	}
+	// every data length 0..48 (finding C17-3: Unwrap handed any length to the key-wrap library): random bytes, bytes that
+	// begin with the RFC 3394 initial value, genuine wrappings of 8 / 16 / 24 / 32 / 40 bytes of key data, the 24-byte
+	// wrapping cut short and extended; envelopes decoded from a peer's JSON with the key absent, empty or short
+	for ki, kl := range []int{16, 24, 32} {
+		kek := r.Bytes(kl)
+		block, _ := aes.NewCipher(kek)
+		copy(key[:], r.Bytes(16))
+		w24, _ := keywrap.Wrap(block, key[:])
+		for l := 0; l <= 48; l++ {
+			if !thorough && l%3 != ki && l != 0 && l != 7 && l != 8 && l != 15 && l != 16 && l != 23 && l != 24 && l != 25 && l != 32 && l != 40 && l != 48 {
+				continue
+			}
+			envUnwrapCase(s, r.Bytes(l), kek, fmt.Sprintf("unwrap-length-%d-random", l))
+			if l >= 8 {
+				envUnwrapCase(s, append([]byte{0xa6, 0xa6, 0xa6, 0xa6, 0xa6, 0xa6, 0xa6, 0xa6}, r.Bytes(l-8)...), kek, fmt.Sprintf("unwrap-length-%d-begins-with-iv", l))
+			}
+			if l >= 16 && l%8 == 0 {
+				if d, err := keywrap.Wrap(block, r.Bytes(l-8)); err == nil {
+					envUnwrapCase(s, d, kek, fmt.Sprintf("unwrap-length-%d-genuine-wrapping-of-%d-bytes", l, l-8))
+				}
+			}
+			if l < 24 {
+				envUnwrapCase(s, w24[:l], kek, fmt.Sprintf("unwrap-length-%d-wrapping-cut-short", l))
+			} else if l > 24 {
+				envUnwrapCase(s, append(append([]byte{}, w24...), r.Bytes(l-24)...), kek, fmt.Sprintf("unwrap-length-%d-wrapping-extended", l))
+			}
+		}
+		for _, js := range []string{`{"KEKLabel":"lbl"}`, `{"KEKLabel":"lbl","AESKey":""}`, `{"KEKLabel":"lbl","AESKey":null}`, `{"KEKLabel":"lbl","AESKey":"00010203040506"}`,
+			`{"KEKLabel":"lbl","AESKey":"a6a6a6a6a6a6a6a6"}`, `{"KEKLabel":"lbl","AESKey":"0xa6a6a6a6a6a6a6a600"}`, fmt.Sprintf(`{"AESKey":"%x"}`, w24), fmt.Sprintf(`{"KEKLabel":"lbl","AESKey":"%x00"}`, w24)} {
+			var env backend.KeyEnvelope
+			if err := json.Unmarshal([]byte(js), &env); err == nil {
+				envUnwrapCase(s, env.AESKey, kek, "unwrap-envelope-decoded-from-json")
+			}
+		}
+	}
+	s.Exhaustive("key envelopes: KeyEnvelope.Unwrap on AESKey of every length 0..48 (thorough: every length x every shape; quick: the block boundaries and a third of the rest per KEK size) - random, beginning with the RFC 3394 initial value, genuine wrappings of 8..40 bytes of key data, the 24-byte wrapping cut short and extended, envelopes decoded from JSON with the key absent / empty / short - under KEKs of 16, 24 and 32 bytes, evaluated in Coq")
 	for _, bad := range []int{0, 1, 5, 15, 17, 23, 25, 31, 33, 48, 64} {
 		envUnwrapCase(s, r.Bytes(24), r.Bytes(bad), "unwrap-bad-kek-length")
 		envUnwrapCase(s, r.Bytes(3), r.Bytes(bad), "unwrap-bad-kek-length-short-data")
@@ -578,6 +614,18 @@ func isoCases(s *cases.Set, r *cq.RNG, thorough bool) {
 				Replay: map[string]interface{}{"api": "backend.ISO8601Time.MarshalText/UnmarshalText", "time": t.Format(time.RFC3339Nano), "text": string(txt)}})
 		}
 	}
+	for _, off := range []int{86400, -86400, 86460, -86460, 89940, -89940, 24*3600 + 30*60} { // Go reads zone hours up to 24: these survive
+		t := time.Date(2020, 6, 15, 12, 0, 0, 0, time.FixedZone("", off))
+		txt, err := backend.ISO8601Time(t).MarshalText()
+		var back backend.ISO8601Time
+		if err == nil {
+			err = back.UnmarshalText(txt)
+		}
+		if err != nil || time.Time(back).Unix() != t.Unix() {
+			s.Fail(cases.GoFail{Key: fmt.Sprintf("iso8601:zone-offset-24h:%s", txt), What: fmt.Sprintf("ISO8601Time with a zone offset of %d s does not survive its text form (%s)", off, txt),
+				Replay: map[string]interface{}{"api": "backend.ISO8601Time.MarshalText/UnmarshalText", "zone_offset_s": off, "text": string(txt)}})
+		}
+	}
 	s.Extra["iso8601_go_side_round_trips"] = n
 	// witnesses of finding C17-2 (RFC 3339 cannot carry these; the random stream above stays inside whole-minute zones and years 1..9999)
 	for _, w := range []struct {
@@ -586,6 +634,11 @@ func isoCases(s *cases.Set, r *cq.RNG, thorough bool) {
 	}{
 		{"iso8601:subminute-zone-offset:1900-01-01T12:00:00+00:19:32", time.Date(1900, 1, 1, 12, 0, 0, 0, time.FixedZone("AMT", 1172))},
 		{"iso8601:year-outside-0-9999:12000-01-01T12:00:00Z", time.Date(12000, 1, 1, 12, 0, 0, 0, time.UTC)},
+		// whole-minute zones of 25 h and more are printed but not read back (Go's parser takes zone hours up to 24)
+		{"iso8601:zone-offset-25h-or-more:2020-06-15T12:00:00+25:00", time.Date(2020, 6, 15, 12, 0, 0, 0, time.FixedZone("", 25*3600))},
+		{"iso8601:zone-offset-25h-or-more:2020-06-15T12:00:00-25:00", time.Date(2020, 6, 15, 12, 0, 0, 0, time.FixedZone("", -25*3600))},
+		{"iso8601:zone-offset-25h-or-more:2020-06-15T12:00:00+99:59", time.Date(2020, 6, 15, 12, 0, 0, 0, time.FixedZone("", 99*3600+59*60))},
+		{"iso8601:zone-offset-25h-or-more:2020-06-15T12:00:00+100:00", time.Date(2020, 6, 15, 12, 0, 0, 0, time.FixedZone("", 100*3600))},
 	} {
 		txt, err := backend.ISO8601Time(w.t).MarshalText()
 		var back backend.ISO8601Time
@@ -861,7 +914,31 @@ func fieldLadder(s *cases.Set, r *cq.RNG, protos []interface{}, thorough bool) i
 	return total
 }
 
+// rawValueCases: a RawMessage that is not compact, or holds < > &, comes back as other bytes (json.Marshal compacts and
+// HTML-escapes it) but as the same JSON value (audit finding 4: considered, the statement is about the value).
+func rawValueCases(s *cases.Set) {
+	for _, raw := range []string{`{"a": 1}`, `"<x&y>"`, `[1, 2]`, ` {"k" : [ true , null , "\u003c" ] } `, "\"\u2028\"", `{"a":1,"a":2}`} {
+		v := backend.VSExtension{VendorID: backend.HEXBytes{1}, Object: json.RawMessage(raw)}
+		b, err := json.Marshal(v)
+		var back backend.VSExtension
+		if err == nil {
+			err = json.Unmarshal(b, &back)
+		}
+		var x, y interface{}
+		d1 := json.NewDecoder(bytes.NewReader([]byte(raw)))
+		d1.UseNumber()
+		d2 := json.NewDecoder(bytes.NewReader(back.Object))
+		d2.UseNumber()
+		e1, e2 := d1.Decode(&x), d2.Decode(&y)
+		if err != nil || e1 != nil || e2 != nil || !reflect.DeepEqual(x, y) {
+			s.Fail(cases.GoFail{Key: fmt.Sprintf("raw:value:%q", raw), What: fmt.Sprintf("VSExtension.Object %q comes back as %q: another JSON value", raw, string(back.Object)),
+				Replay: map[string]interface{}{"api": "json.Marshal / json.Unmarshal of backend.VSExtension", "object": raw, "json": string(b), "back": string(back.Object)}})
+		}
+	}
+}
+
 func structCases(s *cases.Set, r *cq.RNG, thorough bool) {
+	rawValueCases(s)
 	protos := []interface{}{
 		backend.JoinReqPayload{}, backend.JoinAnsPayload{}, backend.RejoinReqPayload{}, backend.RejoinAnsPayload{},
 		backend.AppSKeyReqPayload{}, backend.AppSKeyAnsPayload{}, backend.PRStartReqPayload{}, backend.PRStartAnsPayload{},
@@ -918,7 +995,7 @@ func main() {
 	dir, seed, thorough := cases.Args()
 	r := cq.NewRNG(seed)
 	s := cases.New("C17", dir, "LW.Corr.C17",
-		"Percentage -5..300 exhaustively and Frequency boundary / 0.1 MHz-step / random values through json.Marshal and Unmarshal with the printed float given exactly (m*2^e); arbitrary JSON numbers into UnmarshalJSON; HEXBytes values on a length ladder (0..4096 bytes around powers of two in Coq, up to 64 KiB on the Go side) and malformed texts; key envelopes under KEKs of 16, 24 and 32 bytes (AES-128/192/256; RFC 3394 4.1-4.3 vectors first) and of every refused length: with and without label, one KEK / key bit changed, corrupted, wrong KEK of the same and of another size, short and over-long data; ISO8601Time: boundary instants x zone offsets, every month end, random instants of the years 0..9999 with whole-minute zones, instants outside RFC 3339 (format only), and texts into UnmarshalText (hand-written malformed list, fractions, day-of-month and field limits, zone limits, one-character mutations, random), all evaluated in Coq against format_rfc3339 / parse_rfc3339. generic JSON: json.Marshal of every byte as a string, string pieces and random trees (valid and invalid UTF-8), json.Valid / Decoder trees of documents with white space and escapes put in, hand-written malformed texts, prefixes, one-byte mutations, token soup and the nesting limit, against json_print / json_parse; payload structs: values of the 20 payload types and 10 nested objects (zero value, every optional field set, random optional-field combinations, edge values) printed by reflection without looking at the tags, json.Marshal by value and by pointer and json.Unmarshal compared with to_json / of_json over the type tables, plus decoding of documents with unknown, reversed, dropped, null and wrong-kind members. transport (Go side): the synchronous backend client against a test server on loopback, every request method and SendAnswer x every ResultCode x populated fields, answer sizes up to 64 KB written in one piece / flushed / gzip-encoded, status codes, TLS, error paths. enumerated strings (Go side): the string constants of backend.go read with go/ast, the specification's spellings and every near-miss spelling (one character deleted / inserted / substituted / transposed / doubled, case and suffix variants) as bare values and in every string field of every payload type; ResultCode spellings also as Coq struct cases. Go side (additional volume): the 20 payload structs with random optional fields and with every variable-length field (HEXBytes, strings, slices) at lengths 17/256/257/4096, envelopes, timestamps. Every case is non-trivial; distinct = distinct printed case")
+		"Percentage -5..300 exhaustively and Frequency boundary / 0.1 MHz-step / random values through json.Marshal and Unmarshal with the printed float given exactly (m*2^e); arbitrary JSON numbers into UnmarshalJSON; HEXBytes values on a length ladder (0..4096 bytes around powers of two in Coq, up to 64 KiB on the Go side) and malformed texts; key envelopes under KEKs of 16, 24 and 32 bytes (AES-128/192/256; RFC 3394 4.1-4.3 vectors first) and of every refused length: with and without label, one KEK / key bit changed, corrupted, wrong KEK of the same and of another size, AESKey of every length 0..48 (random, beginning with the IV, genuine wrappings of 8..40 bytes, cut short, extended, decoded from JSON with the key absent); ISO8601Time: boundary instants x zone offsets, every month end, random instants of the years 0..9999 with whole-minute zones, instants outside RFC 3339 (format only), and texts into UnmarshalText (hand-written malformed list, fractions, day-of-month and field limits, zone limits, one-character mutations, random), all evaluated in Coq against format_rfc3339 / parse_rfc3339. generic JSON: json.Marshal of every byte as a string, string pieces and random trees (valid and invalid UTF-8), json.Valid / Decoder trees of documents with white space and escapes put in, hand-written malformed texts, prefixes, one-byte mutations, token soup and the nesting limit, against json_print / json_parse; payload structs: values of the 20 payload types and 10 nested objects (zero value, every optional field set, random optional-field combinations, edge values) printed by reflection without looking at the tags, json.Marshal by value and by pointer and json.Unmarshal compared with to_json / of_json over the type tables, plus decoding of documents with unknown, reversed, dropped, null and wrong-kind members. transport (Go side): the synchronous backend client against a test server on loopback, every request method and SendAnswer x every ResultCode x populated fields, answer sizes up to 64 KB written in one piece / flushed / gzip-encoded, status codes, TLS, error paths. enumerated strings (Go side): the string constants of backend.go read with go/ast, the specification's spellings and every near-miss spelling (one character deleted / inserted / substituted / transposed / doubled, case and suffix variants) as bare values and in every string field of every payload type; ResultCode spellings also as Coq struct cases. Go side (additional volume): the 20 payload structs with random optional fields and with every variable-length field (HEXBytes, strings, slices) at lengths 17/256/257/4096, envelopes, timestamps. Every case is non-trivial; distinct = distinct printed case")
 	s.Watchdog(20 * time.Second) // calls into the client (transport section) run under cases.Begin / cases.End
 	floatCases(s, r.Fork(), thorough)
 	hexCases(s, r.Fork(), thorough)
